@@ -180,7 +180,7 @@ Inv_C12 == Unexplained({"C12_conv", "C12_keep"}) = {}
 Inv_C10 == Unexplained({"C10_wedge", "C10_refuse", "C10_accept", "C10_held"}) = {}
 Inv_C11 == Unexplained({"C11_unchanged", "C10_refuse"}) = {}
 Inv_C13 == Unexplained({"C13_wid"}) = {}
-Inv_C14 == Unexplained({"C14_startgate", "C14_siggate", "C14_events", "C14_killsent"}) = {}
+Inv_C14 == Unexplained({"C14_startgate", "C14_siggate", "C14_events", "C14_killsent", "C14_own"}) = {}
 Inv_C15 == Unexplained({"C15_dir", "C15_views", "C15_addrm", "C15_reach"}) = {}
 Inv_C18 == Unexplained({"C18_confine", "C18_exact", "C18_killsig"}) = {}
 Inv_C19 == Unexplained({"C19_order", "C19_pace", "C19_auto"}) = {}
